@@ -4,7 +4,7 @@ from .fe import FeFamily
 from .c20 import ValidFamily
 from .c18_extra import ProxyPeer, BeSrvWf, GpuFamily   # C18 machinery: proxy request bytes, server acks, GPU requests
 
-PROPS_MODULES = ["C01", "C01b"]
+PROPS_MODULES = ["C01", "C01b", "Ctors"]
 RULE = ("family `fe` (peer mode): every request the real Frontend writes (all operations, lattice arguments, every config payload "
         "length class, 1..32 regions with descriptors, NEED_REPLY on/off) is compared byte for byte, and descriptor for "
         "descriptor, with the Spec encoder. family `srv` (well-formed mode): Spec-encoded requests built by the independent "
